@@ -71,6 +71,8 @@ class Entry(object):
         """Finish the underlying work (blocks until the delegate future exists)."""
         n = self.name
         me = self.me
+        if n == "pool":
+            return  # the thread pool runs the callable by itself
         if n in EXECUTOR_ENTRIES or n == "stack":
             # complete every delegate submission as it appears, until the future is done
             done_ev = threading.Event()
@@ -84,6 +86,12 @@ class Entry(object):
                 d = me.submitted[idx]
                 idx += 1
                 sched.point()
+                if kind == "run":
+                    me.run(d)  # play the worker: really run the submitted callable
+                    if d.done() and not d.cancelled() and d.exception() is None:
+                        if not (n == "flat_map"):
+                            break
+                    continue
                 if n == "flat_map":
                     finish(d, "value", self.value)  # then the inner future decides
                 else:
@@ -92,7 +100,7 @@ class Entry(object):
                     break
             if n == "flat_map" and self.inner is not None:
                 sched.point()
-                finish(self.inner, kind, self.value, self.exc)
+                finish(self.inner, "value" if kind == "run" else kind, self.value, self.exc)
             # a real executor dequeues every work item eventually, which is when waiters of
             # a future cancelled meanwhile get notified
             for d in list(me.submitted):
@@ -142,6 +150,8 @@ class Entry(object):
         if self.me is not None:
             self.me.wake.set()
 
+    is_pool = False
+
     def close(self):
         self.stop()
         for ex in self.executors:
@@ -164,11 +174,19 @@ def build(ctx, name, fn=None):
 
     e = Entry(ctx, name)
     ev = ctx.ev
-    if name.startswith("stack:"):
+    if name.startswith("stack:") or name.startswith("pool:"):
         # "stack:a+b" = layer a applied first (innermost, directly over the manual delegate), then b
-        me = e.me = ManualExecutor(ev)
+        # "pool:a+b"  = the same over a real thread pool (1 worker) behind a recording wrapper
+        if name.startswith("pool:"):
+            e.pool = Executors.thread_pool(max_workers=1)
+            me = e.me = RecordingExecutor(e.pool, ev, name="pool")
+            me.wake = threading.Event()
+            me.submitted = []
+            e.is_pool = True
+        else:
+            me = e.me = ManualExecutor(ev)
         ex = me
-        e.layers = name[6:].split("+")
+        e.layers = name.split(":", 1)[1].split("+")
         for ln in e.layers:
             if ln == "map":
                 ex = Executors.with_map(ex, lambda x: x)
@@ -196,7 +214,7 @@ def build(ctx, name, fn=None):
         e.ex = ex
         e.fut = ex.submit(fn or (lambda: e.value))
         e.inputs = me.submitted
-        e.name = "stack"
+        e.name = "pool" if name.startswith("pool:") else "stack"
         e.full_name = name
         return e
     if name in EXECUTOR_ENTRIES:
